@@ -12,6 +12,7 @@
 -/
 import Properties.FullApi
 import Properties.C06
+import Properties.C09
 import Proofs.LogCounter
 namespace Sketchnu.EndToEndLog
 open Sketchnu Sketchnu.FullLin Sketchnu.FullLog
@@ -145,5 +146,65 @@ theorem counters_bounded_src (ko : Rt.KeyOps K B) (lcAt : Hist K → Nat → Nat
     (hw : 0 < width) (hd : DecOK d u nr maxc) (hmc : (nr + 1) * u < mcS) (hl : ∀ h, LcOK nr maxc (lcAt h)) (h : Hist K) (r c : Nat) (hr : r < depth) (hc : c < width) :
     (srcRunLog16 ko lcAt (mergeLogSpec d maxc mcS) width depth mc maxc nr h).2.1 r c ≤ maxc :=
   (C06.upperInv _ (fun r k => Nat.mod_lt _ hw) d u nr maxc mcS hd hmc h _ (srcRunLog16_reach ko lcAt d width depth mc maxc mcS nr hl h) r c hr hc).1
+
+/-- **C18 (log sketches) for the code as it reads now**: no add lowers any estimate … -/
+theorem C18_log_add_mono_src (ko : Rt.KeyOps K B) (lcAt : Hist K → Nat → Nat → Nat → Nat × Nat) (cell : Nat → Nat → Nat) (width depth mc maxc nr : Nat)
+    (hw : 0 < width) (hl : ∀ h, LcOK nr maxc (lcAt h)) (h : Hist K) (k k' : K) (v : Nat) :
+    srcQueryC16 ko lcAt cell width depth mc maxc nr h k' ≤ srcQueryC16 ko lcAt cell width depth mc maxc nr (.add h k v) k' := by
+  unfold srcQueryC16
+  rw [query_log16_full, query_log16_full]
+  apply tquery_mono
+  intro r hr
+  simp only [srcRunLog16]
+  rw [(FullApi.log_add_api ko _ _ _ _ width depth maxc nr _ k v).1]
+  exact (addLogSpec_ok ko _ nr maxc (hl _) _ _ _ width depth _ k v).mono r _ hr (Nat.mod_lt _ hw)
+
+/-- … and no merge does, on either operand (merge cell body = nearest-counter specification) -/
+theorem C18_log_merge_mono_src (ko : Rt.KeyOps K B) (lcAt : Hist K → Nat → Nat → Nat → Nat × Nat) (d : Nat → Nat) (u width depth mc maxc mcS nr : Nat)
+    (hw : 0 < width) (hd : DecOK d u nr maxc) (hmc : (nr + 1) * u < mcS) (hl : ∀ h, LcOK nr maxc (lcAt h)) (a b : Hist K) (k : K) :
+    srcQueryC16 ko lcAt (mergeLogSpec d maxc mcS) width depth mc maxc nr a k ≤ srcQueryC16 ko lcAt (mergeLogSpec d maxc mcS) width depth mc maxc nr (.merge a b) k ∧
+    srcQueryC16 ko lcAt (mergeLogSpec d maxc mcS) width depth mc maxc nr b k ≤ srcQueryC16 ko lcAt (mergeLogSpec d maxc mcS) width depth mc maxc nr (.merge a b) k := by
+  unfold srcQueryC16
+  rw [query_log16_full, query_log16_full, query_log16_full]
+  have cellv : ∀ r, r < depth →
+      (srcRunLog16 ko lcAt (mergeLogSpec d maxc mcS) width depth mc maxc nr (.merge a b)).2.1 r ((geomOf ko depth width).col r k) =
+        mergeLogSpec d maxc mcS ((srcRunLog16 ko lcAt (mergeLogSpec d maxc mcS) width depth mc maxc nr a).2.1 r ((geomOf ko depth width).col r k))
+          ((srcRunLog16 ko lcAt (mergeLogSpec d maxc mcS) width depth mc maxc nr b).2.1 r ((geomOf ko depth width).col r k)) := by
+    intro r hr
+    have hc : (geomOf ko depth width).col r k < width := Nat.mod_lt _ hw
+    simp only [srcRunLog16]
+    rw [FullApi.log_merge_api.1]
+    simp [mergeLogSpecK, hr, hc]
+  constructor
+  · apply tquery_mono
+    intro r hr
+    have hr' : r < depth := hr
+    rw [cellv r hr']
+    exact (C09.merge_ge d u nr maxc mcS hd _ _
+      (counters_bounded_src ko lcAt d u width depth mc maxc mcS nr hw hd hmc hl a r _ hr' (Nat.mod_lt _ hw))
+      (counters_bounded_src ko lcAt d u width depth mc maxc mcS nr hw hd hmc hl b r _ hr' (Nat.mod_lt _ hw))).1
+  · apply tquery_mono
+    intro r hr
+    have hr' : r < depth := hr
+    rw [cellv r hr']
+    exact (C09.merge_ge d u nr maxc mcS hd _ _
+      (counters_bounded_src ko lcAt d u width depth mc maxc mcS nr hw hd hmc hl a r _ hr' (Nat.mod_lt _ hw))
+      (counters_bounded_src ko lcAt d u width depth mc maxc mcS nr hw hd hmc hl b r _ hr' (Nat.mod_lt _ hw))).2.1
+
+/-- **C09 (log sketches) for the code as it reads now**: inside the block every merged cell is the nearest-counter specification of the two cells,
+    the two bookkeeping counters are summed, and merging is commutative on the table -/
+theorem C09_log_merge_src (cell : Nat → Nat → Nat) (A Bt : Tab) (width depth mc maxc nr : Nat) (nar onar : Nat → Nat) (r c : Nat) (hr : r < depth) (hc : c < width) :
+    (Full.log16_merge cell A Bt width depth mc maxc nr nar onar).1 r c = cell (A r c) (Bt r c) ∧
+    (Full.log8_merge cell A Bt width depth mc maxc nr nar onar).1 r c = cell (A r c) (Bt r c) ∧
+    (Full.log16_merge cell A Bt width depth mc maxc nr nar onar).2 0 = nar 0 + onar 0 ∧
+    (Full.log16_merge cell A Bt width depth mc maxc nr nar onar).2 1 = nar 1 + onar 1 := by
+  rw [FullApi.log_merge_api.1, FullApi.log_merge_api.2]
+  simp [mergeLogSpecK, hr, hc, Rt.set1_apply]
+
+theorem C09_log_merge_comm_src (d : Nat → Nat) (maxc mcS : Nat) (A Bt : Tab) (width depth mc nr : Nat) (nar onar : Nat → Nat) (r c : Nat) (hr : r < depth) (hc : c < width) :
+    (Full.log16_merge (mergeLogSpec d maxc mcS) A Bt width depth mc maxc nr nar onar).1 r c =
+    (Full.log16_merge (mergeLogSpec d maxc mcS) Bt A width depth mc maxc nr onar nar).1 r c := by
+  rw [(C09_log_merge_src _ A Bt width depth mc maxc nr nar onar r c hr hc).1, (C09_log_merge_src _ Bt A width depth mc maxc nr onar nar r c hr hc).1]
+  exact C09.merge_comm d maxc mcS _ _
 
 end Sketchnu.EndToEndLog
